@@ -1,9 +1,120 @@
-(* C19 — coordinate text and grid formats round-trip within their resolution (placeholder,
-   replaced as the proofs land). *)
-From Coq Require Import QArith String.
-From GV Require Import Prelude CoordM FormatM.
-Open Scope string_scope.
+(* C19 — coordinate text and grid formats round-trip within their resolution.
+   Only statements closed by [exact] and their Print Assumptions.  Exact rational model
+   (FormatM.v); a "stored coordinate" is a canonical one (C08).  MGRS and the pyproj round
+   trips are third-party numerics: no theorem (observed by the check on a fixed corpus). *)
+From Coq Require Import QArith Qabs Lqa String.
+From GV Require Import Prelude CoordM CoordP FormatM FormatP FormatP2.
+Open Scope Q_scope.
 
+(* to_dms, each axis, every rational value: 0 <= min < 60, 0 <= sec <= 60 (in 1e-5 units),
+   degrees = integer part of |value|, hemisphere E/N exactly when the value is >= 0 *)
+Theorem C19_dms_ranges : forall dd,
+  let t := to_dms_axis dd in
+  (0 <= mn t < 60)%Z /\ (0 <= s5 t <= 6000000)%Z /\
+  (inject_Z (dg t) <= Qabs dd /\ Qabs dd < inject_Z (dg t) + 1) /\
+  (pos t = true <-> 0 <= dd).
+Proof. exact dms_ranges. Qed.
+Print Assumptions C19_dms_ranges.
+
+(* seconds = 60.0 is reached (rounding up is not carried into the minutes): "<= 60" is tight *)
+Theorem C19_dms_seconds_60_reachable :
+  exists dd, s5 (to_dms_axis dd) = 6000000%Z /\ mn (to_dms_axis dd) = 59%Z.
+Proof. exact dms_seconds_60_reachable. Qed.
+Print Assumptions C19_dms_seconds_60_reachable.
+
+(* the number from_dms computes for to_dms's tuple: within (0.5e-5 + 1e-17)/3600 degrees *)
+Theorem C19_dms_axis_roundtrip : forall dd,
+  - dms_eps <= dms_num (to_dms_axis dd) - dd /\ dms_num (to_dms_axis dd) - dd <= dms_eps.
+Proof. exact dms_axis_roundtrip. Qed.
+Print Assumptions C19_dms_axis_roundtrip.
+
+Theorem C19_dms_eps_value : dms_eps == ((1 # 200000) + (1 # 100000000000000000)) / 3600.
+Proof. exact dms_eps_is. Qed.
+
+(* whole round trip through the normalising constructor *)
+Theorem C19_dms_roundtrip : forall c, canonical c ->
+  exists c', from_dms (fst (to_dms c)) (snd (to_dms c)) = Ok c' /\
+    within dms_eps (clat c') (clat c) /\
+    (within dms_eps (clon c') (clon c) \/ within dms_eps (clon c' + 360) (clon c)).
+Proof. exact dms_roundtrip. Qed.
+Print Assumptions C19_dms_roundtrip.
+
+(* QDDDMMSSHH / QDDMMSSHH are always 10 and 9 characters (after repair D19), either order *)
+Theorem C19_qdms_lengths : forall c rev, canonical c ->
+  let (a, b) := to_qdms c rev in
+  if rev then String.length a = 9%nat /\ String.length b = 10%nat
+  else String.length a = 10%nat /\ String.length b = 9%nat.
+Proof. exact qdms_lengths. Qed.
+Print Assumptions C19_qdms_lengths.
+
+(* from_qdms reads back exactly the numbers to_qdms wrote (digit strings parse to the integers
+   printed) and the result is within qdms_eps per axis:
+   (0.005 + 1e-14 + 0.5e-5 + 1e-17)/3600 [two roundings of the seconds] + 0.5e-6 + 1e-18
+   [from_qdms's own rounding to 1e-6 degrees] *)
+Theorem C19_qdms_roundtrip : forall c, canonical c ->
+  exists c', from_qdms (fst (to_qdms c false)) (snd (to_qdms c false)) = Some (Ok c') /\
+    within qdms_eps (clat c') (clat c) /\
+    (within qdms_eps (clon c') (clon c) \/ within qdms_eps (clon c' + 360) (clon c)).
+Proof. exact qdms_roundtrip. Qed.
+Print Assumptions C19_qdms_roundtrip.
+
+Theorem C19_qdms_eps_value : qdms_eps ==
+  ((1 # 200) + (1 # 100000000000000) + (1 # 200000) + (1 # 100000000000000000)) / 3600
+  + (1 # 2000000) + (1 # 1000000000000000000).
+Proof. reflexivity. Qed.
+
+(* inputs with at most 6 decimals come back exactly or as the neighbouring multiple of 1e-6
+   degrees: error <= 1e-6 degrees = 0.0036 arc-seconds (< 0.005) *)
+Theorem C19_qdms_roundtrip_6dec : forall c (nlon nlat : Z), canonical c ->
+  clon c == inject_Z nlon / 1000000 -> clat c == inject_Z nlat / 1000000 ->
+  exists c', from_qdms (fst (to_qdms c false)) (snd (to_qdms c false)) = Some (Ok c') /\
+    within (1 # 1000000) (clat c') (clat c) /\
+    (within (1 # 1000000) (clon c') (clon c) \/ within (1 # 1000000) (clon c' + 360) (clon c)).
+Proof. exact qdms_roundtrip_6dec. Qed.
+Print Assumptions C19_qdms_roundtrip_6dec.
+
+(* the property's "within 0.005 arc-second" read literally of the text is false by double
+   rounding (12.004996" -> 12.00500" -> 12.01"): the proved bound carries the extra 0.5e-5" *)
+Theorem C19_qdms_text_0005_refuted : exists dd,
+  (1 # 200) / 3600 < axis_read (to_dms_axis dd) - dd.
+Proof. exact qdms_text_0005_refuted. Qed.
+Print Assumptions C19_qdms_text_0005_refuted.
+
+(* regression statement for D19: the writer used before the repair loses 12.00" -> 1.20" *)
+Theorem C19_qdms_trailing_zero_refuted : exists c c',
+  canonical c /\
+  from_qdms (fst (to_qdms_preD19 c)) (snd (to_qdms_preD19 c)) = Some (Ok c') /\
+  (10 # 1) / 3600 < clon c - clon c'.
+Proof. exact qdms_trailing_zero_refuted. Qed.
+Print Assumptions C19_qdms_trailing_zero_refuted.
+
+(* "projected values are returned as-is": only when they happen to lie in the degree ranges
+   (and z is polluted with False = 0); false in general — finding D20.  T is the third-party
+   transform, universally quantified. *)
+Theorem C19_projection_as_is_partial : forall (T : Q -> Q -> Q * Q) c,
+  let x := fst (T (clat c) (clon c)) in
+  let y := snd (T (clat c) (clon c)) in
+  -180 <= rhu y 6 -> rhu y 6 < 180 -> -90 <= rhu x 6 -> rhu x 6 <= 90 ->
+  to_projection T c = Ok (mkc (rhu y 6) (rhu x 6) (Some 0) None).
+Proof. exact projection_as_is_partial. Qed.
+Print Assumptions C19_projection_as_is_partial.
+
+Theorem C19_projection_as_is_refuted :
+  exists (T : Q -> Q -> Q * Q) c c',
+    canonical c /\ to_projection T c = Ok c' /\
+    ~ (clon c' == rhu (snd (T (clat c) (clon c))) 6 /\ clat c' == rhu (fst (T (clat c) (clon c))) 6).
+Proof. exact projection_as_is_refuted. Qed.
+Print Assumptions C19_projection_as_is_refuted.
+
+(* non-vacuity: a canonical coordinate and what the four converters give on it *)
 Example C19_nonvacuous :
-  to_qdms (mkc (-154092 # 1000000) (51539865 # 1000000) None None) false = ("W000091473", "N51322351").
-Proof. vm_compute. reflexivity. Qed.
+  canonical (mkc (-154092 # 1000000) (51539865 # 1000000) None None) /\
+  to_qdms (mkc (-154092 # 1000000) (51539865 # 1000000) None None) false
+    = ("W000091473", "N51322351")%string /\
+  to_dms_axis (-154092 # 1000000) = mkdms 0 9 1473120 false /\
+  from_qdms "W000091473" "N51322351"
+    = Some (Ok (mkc (-154092 # 1000000) (51539864 # 1000000) None None)).
+Proof.
+  split; [unfold canonical; cbn [clon clat]; repeat split; lra|].
+  vm_compute. repeat split.
+Qed.
